@@ -668,6 +668,10 @@ def run(ctx, model):
     stats = Counter()
     evaluate(ctx, model, cases, cov, stats)
     display_terminal_scenarios(ctx, cov)
+    # the command line computes the same box as the library call with the same parameters, also when a limit or a scale comes
+    # from the environment layer and the command line says nothing about it
+    import c08_cli
+    c08_cli.cli_equivalence(ctx, cov, ctx.pick(18, 120), env_rate=0.8)
     for k, v in sorted(stats.items()):
         cov.bump("~" + k, v)
     ctx.notes.append("binary64 vs exact-rational instance (decimal reading of the scales): "
@@ -679,6 +683,13 @@ def run(ctx, model):
 
 def replay(ctx, model, rec):
     c = rec["case"]
+    if c.get("kind") == "cli-equivalence":
+        import c08_cli
+        n0 = len(ctx.violations)
+        c08_cli.cli_equivalence(ctx, common.Coverage("replay"), 40, env_rate=0.8)
+        mine = ctx.violations[n0:]
+        del ctx.violations[n0:]
+        return {"violates": bool(mine), "violations": [v["what"] for v in mine][:3]}
     if c.get("kind") == "two-terminals":
         n0 = len(ctx.violations)
         display_terminal_scenarios(ctx, common.Coverage("replay"))
